@@ -15,9 +15,9 @@ package main
 // re-executions.
 
 import (
-	"math"
 	"fmt"
 	"golang.org/x/tools/go/ssa"
+	"math"
 	"math/big"
 	"strings"
 	"sync"
@@ -77,8 +77,9 @@ type Stats struct {
 	Stubs                                                                   map[string]int
 	Samples                                                                 []string
 	Violations                                                              []Violation
+	Witnesses                                                               []Violation
 	ReachWitness                                                            int
-	SolverRestarts int
+	SolverRestarts                                                          int
 	Notes                                                                   map[string]int
 	NoteErr                                                                 map[string]int
 	NoteSolver                                                              map[string]float64
@@ -877,7 +878,8 @@ func (p *Path) violation(kind, msg, where string, vals map[string]ModelVal) {
 		}
 	}
 	vio := Violation{Harness: p.w.ex.harness, Kind: kind, Msg: msg, Where: where, Trail: trailString(p.taken)}
-	for _, n := range p.nondets {
+	vio.Vector = p.vectorFrom(vals)
+	for _, n := range p.nondets[:0] {
 		it := ReplayItem{K: n.Kind}
 		if n.Term == nil {
 			it.I = fmt.Sprint(n.Conc)
@@ -937,4 +939,35 @@ func trailString(t []Decision) string {
 		}
 	}
 	return sb.String()
+}
+
+// vectorFrom turns a model into the replay vector of the path's nondets.
+func (p *Path) vectorFrom(vals map[string]ModelVal) []ReplayItem {
+	var out []ReplayItem
+	for _, n := range p.nondets {
+		it := ReplayItem{K: n.Kind}
+		if n.Term == nil {
+			it.I = fmt.Sprint(n.Conc)
+		} else if mv, ok := vals[n.Term.raw]; ok {
+			switch n.Kind {
+			case "float":
+				if !math.IsNaN(mv.F) && !math.IsInf(mv.F, 0) {
+					it.F = mv.F
+				}
+				it.I = fmt.Sprintf("%x", mathFloat64bits(mv.F))
+			case "bool":
+				it.B = mv.B
+			default:
+				if mv.I != nil {
+					it.I = mv.I.String()
+				} else {
+					it.I = "0"
+				}
+			}
+		} else {
+			it.I = "0"
+		}
+		out = append(out, it)
+	}
+	return out
 }
